@@ -26,7 +26,7 @@ META = {
                     "inertial blocks, when present, always carry their <origin> (its optionality is not among the listed ones)"],
 }
 REQUIRED_CLAUSES = ["loads", "dof_names_limits", "fk", "bundled.fk"]
-REQUIRED_CLASSES = ["omit:origin", "omit:xyz", "omit:rpy", "omit:axis", "fixed:before", "fixed:between", "fixed:after", "world:yes", "inertial:yes"]
+REQUIRED_CLASSES = ["limit:zero_bound", "limit:excludes_zero", "limit:integer_or_exponent", "omit:origin", "omit:xyz", "omit:rpy", "omit:axis", "fixed:before", "fixed:between", "fixed:after", "world:yes", "inertial:yes"]
 
 
 def plan(tier, seed):
@@ -93,7 +93,24 @@ def gen_urdf(rng):
             if jt == "revolute":
                 lo = -float(rng.uniform(0.3, 2 * PI))
                 hi = float(rng.uniform(0.3, 2 * PI))
-                parts.append('    <limit lower="%r" upper="%r" effort="10.0" velocity="1.5"/>\n' % (lo, hi))
+                slo, shi = repr(lo), repr(hi)
+                r2 = rng.random()
+                if r2 < 0.15:           # one-sided ranges: a bound that is exactly zero, in the spellings files use
+                    slo = gen.pick(rng, ["0", "0.0", "-0.0", "0e0"])
+                    classes.add("limit:zero_bound")
+                elif r2 < 0.3:
+                    shi = gen.pick(rng, ["0", "0.0", "0.", "+0"])
+                    classes.add("limit:zero_bound")
+                elif r2 < 0.4:          # range that excludes zero
+                    a, b = sorted(float(x) for x in rng.uniform(0.1, 3.0, 2))
+                    sgn = float(rng.choice([-1.0, 1.0]))
+                    lo2, hi2 = (a, b + 0.3) if sgn > 0 else (-(b + 0.3), -a)
+                    slo, shi = repr(lo2), repr(hi2)
+                    classes.add("limit:excludes_zero")
+                elif r2 < 0.5:          # integers and exponents
+                    slo, shi = gen.pick(rng, [("-3", "3"), ("-1", "2"), ("-1.5e0", "25e-1"), ("-7", "7")])
+                    classes.add("limit:integer_or_exponent")
+                parts.append('    <limit lower="%s" upper="%s" effort="10.0" velocity="1.5"/>\n' % (slo, shi))
             elif rng.random() < 0.4:
                 classes.add("continuous:limit_without_bounds")
                 parts.append('    <limit effort="10.0" velocity="1.5"/>\n')
@@ -141,7 +158,7 @@ def check_file(path, ctx, bm, case, rng, bundled=False, nvec=20):
     hi = np.array([PI if v is None else v for v in chain.upper])
     clause = "bundled.fk" if bundled else "fk"
     for k in range(nvec):
-        th = rng.uniform(lo, hi) if k else np.zeros(chain.num_dof)
+        th = rng.uniform(lo, hi) if k else np.clip(np.zeros(chain.num_dof), lo, hi)      # the home vector, moved inside ranges that exclude zero
         if k == 1:
             th = lo.copy()
         if k == 2:
